@@ -86,8 +86,16 @@ ForeignAssertion(o) == \E i \in 1..N(o) :
                              \/ Get(o.snapF, id).rp # r.rp
                              \/ (r.allowGiven /\ r.allow # <<>> /\ id \notin ToSet(r.allow))
 
+\* C04 under concurrency: the credential shown at a ceremony's consent prompt is the one its assertion is made with,
+\* whatever other ceremonies do to the store while the prompt is pending
+ShownNotSigner(o) == \E i \in 1..N(o) :
+                        /\ o.cers[i].op = "ga" /\ Ok(o, i)
+                        /\ LET P == SelectSeq(EvsOf(o, i), LAMBDA e : e.ev = "Prompt") IN
+                           P = <<>> \/ P[Len(P)].d.shown # EndOf(o, i)[1].d.cred
+
 Violated(o) ==
-    (IF o.final /\ ExcludeIgnored(o) THEN {"C05.ExcludedIff.Concurrent"} ELSE {})
+    (IF o.final /\ ShownNotSigner(o) THEN {"C04.ShownIsSigner.Concurrent"} ELSE {})
+    \cup (IF o.final /\ ExcludeIgnored(o) THEN {"C05.ExcludedIff.Concurrent"} ELSE {})
     \cup (IF o.final /\ ForeignAssertion(o) THEN {"C05.OwnRpAndAllowList.Concurrent"} ELSE {})
     \cup (IF \E k \in 1..Len(o.all) : o.all[k].ev = "Deadlock" THEN {"C19.Deadlock"} ELSE {})
     \cup (IF \E k \in 1..Len(o.all) : o.all[k].ev = "Crash" THEN {"Any.Crash"} ELSE {})
